@@ -95,6 +95,12 @@ def run_program(excutils, prog, flag0, kind):
             elif op == 'nest_off':
                 with excutils.save_and_reraise_exception(reraise=False, logger=FakeLogger()):
                     pass
+            elif op == 'nest_caught':
+                try:
+                    with excutils.save_and_reraise_exception(logger=FakeLogger()):
+                        pass
+                except BaseException:
+                    pass
             elif op == 'force':
                 ctx.force_reraise()
             elif op == 'capture':
@@ -120,8 +126,14 @@ def run_program(excutils, prog, flag0, kind):
     vid = getattr(propagated, 'vid', -1) if propagated is not None else 0
     same_object = propagated is E1
     origin = innermost_function(propagated) if propagated is not None else None
+    reraises = 0
+    tb = propagated.__traceback__ if propagated is not None else None
+    while tb is not None:
+        if tb.tb_frame.f_code.co_name == 'force_reraise':
+            reraises += 1
+        tb = tb.tb_next
     return {'propagates': vid, 'logged': logger.errors, 'is_original_object': same_object,
-            'innermost': origin, 'entry_innermost': entry, 'type': type(propagated).__name__ if propagated is not None else None}
+            'innermost': origin, 'entry_innermost': entry, 'reraise_frames': reraises, 'type': type(propagated).__name__ if propagated is not None else None}
 
 
 def run(ctx):
@@ -152,6 +164,10 @@ def run(ctx):
                 problems.append('not-same-object')
             if want_p == 1 and not rec['direct'] and got['innermost'] != got['entry_innermost']:
                 problems.append('traceback')
+            body_completed = not rec['prog'] or rec['prog'][-1] not in ('raise_new', 'nest_on', 'force')
+            if want_p == 1 and not rec['direct'] and body_completed and got['reraise_frames'] > 1:
+                # the traceback is the saved one plus ONE re-raise, not the one grown by earlier re-raises
+                problems.append('traceback-not-restored')
             outcomes[(want_p, rec['logged'])] = outcomes.get((want_p, rec['logged']), 0) + 1
             if problems:
                 ctx.violation({'kind': problems[0], 'direct': rec['direct'], 'class': kind,
@@ -176,7 +192,7 @@ def run(ctx):
         if rec['k'] == 'filter':
             got = run_filter(excutils, c)
             want = ref['propagates']
-            if got['propagates'] != want or (c['body'] == 'raises' and not got['pred_called']):
+            if got['propagates'] != want or (c['body'] != 'ok' and not got['pred_called']):
                 ctx.violation({'kind': 'filter', 'usage': c['usage'], 'pred': c['pred'], 'body': c['body']},
                               {'case': c, 'expected': ref, 'observed': got},
                               'exception_filter %s: specification %s, code %s' % (c, ref, got))
@@ -230,8 +246,9 @@ def run_filter(excutils, c):
         def method(self, ex):
             calls['n'] += 1
             return res
-    target = Plain('filtered')
+    target = Plain('filtered') if c['body'] != 'raises_base' else MyBase('filtered')
     other = Plain('other')
+    raising = c['body'] in ('raises', 'raises_base')
     propagated = None
     usage = c['usage']
     try:
@@ -240,21 +257,21 @@ def run_filter(excutils, c):
             if usage == 'decorated':
                 f = excutils.exception_filter(pred)
             with f:
-                if c['body'] == 'raises':
+                if raising:
                     raise target
         elif usage == 'call_in_handler':
             f = excutils.exception_filter(pred)
-            if c['body'] == 'raises':
+            if raising:
                 try:
                     raise target
-                except Plain as ex:
+                except BaseException as ex:
                     f(ex)
             else:
                 f(target) if False else None
                 calls['n'] += 1
         else:
             f = excutils.exception_filter(pred)
-            if c['body'] == 'raises':
+            if raising:
                 try:
                     raise other
                 except Plain:
